@@ -23,6 +23,9 @@
 #define C06_EXACT_MAX 4096   // pieces up to this size are copied into exactly sized heap blocks (ASan sees overruns)
 #define C06_HANG 99          // pseudo return code: no termination
 
+// When set, empty windows are passed as NULL pointers (lzma_code() allows NULL with avail == 0).
+static bool i06_null_in = false;
+
 // ---------------------------------------------------------------------------------------------
 // slicing generators
 // ---------------------------------------------------------------------------------------------
